@@ -30,7 +30,8 @@ func round5Scenarios() []func() []monFailure {
 		scenRecheckAfterFeeChange, scenReregisterSameMoniker, scenSameBlockCancel, scenManyDenominationsSupply, scenOnlyRegistryMsgsUnlock,
 		scenStartingIdsAcrossExport, scenZeroHeightExportInMintWindow, scenEmptiedAccountSurvivesExport, scenFeeRuleOverLayouts, scenQueuesLongerThanAPage,
 		scenAcceptAndRejectThresholdsBothMet, scenUpdateAndTopUpSameBlock, scenStaleHeightsInEveryWrapping,
-		scenWhitelistRemovalInAcceptanceBlock, scenSameMonikerTwiceInOneBlock, scenForgedRecordBesideOwnRecord, scenPurchaseAfterMaxRaised}
+		scenWhitelistRemovalInAcceptanceBlock, scenSameMonikerTwiceInOneBlock, scenForgedRecordBesideOwnRecord, scenPurchaseAfterMaxRaised,
+		scenGovSignedEnterpriseMessages, scenGovAccountAsStreamSender, scenFeeParameterAt63Bits}
 }
 
 // C09 / C13: a transaction [register; record on the id it is about to receive; a failing message] is rolled back as a
@@ -1328,6 +1329,101 @@ func scenPurchaseAfterMaxRaised() []monFailure {
 		over := txSpec{msgs: []sdk.Msg{c.mRegPurchase(wrk, 2, 1, 1_400_000).m}, fee: nundCoins(1_400_000), signers: []acct{c.accts[2]}}
 		if r, _ := c.check(over); r.Code == 0 {
 			s.fail("C16", 0, fmt.Sprintf("with a limit of 700002 and a maximum of 2000000, CheckTx admits a purchase of 1400000 more slots (wrkchain=%v)", wrk))
+		}
+	}
+	return s.failures
+}
+
+// C13 (round 10): the governance authority may update parameters and nothing else.  A proposal carrying enterprise
+// messages that name the gov module account as signer - a whitelist change, a decision on a raised order - must fail:
+// the whitelist and the order stay as they were.
+func scenGovSignedEnterpriseMessages() []monFailure {
+	s := &scen{c: newChain(fixedCfg()), name: "gov-signed-enterprise-messages"}
+	defer s.c.close()
+	c := s.c
+	gov := authtypes.NewModuleAddress("gov")
+	s.blockStart(5 * time.Second)
+	s.tx(4, nundCoins(0), c.mEntRaise(4, "nund", sdk.NewInt(900)).m)
+	s.blockEnd()
+	var pid uint64
+	for _, tc := range []struct {
+		what string
+		msg  sdk.Msg
+	}{
+		{"MsgWhitelistAddress", &enttypes.MsgWhitelistAddress{Address: c.addrOf(5).String(), Signer: gov.String(), Action: enttypes.WhitelistAction(1)}},
+		{"MsgProcessUndPurchaseOrder", &enttypes.MsgProcessUndPurchaseOrder{PurchaseOrderId: 1, Decision: enttypes.StatusAccepted, Signer: gov.String()}},
+	} {
+		s.govPass(&pid, tc.msg)
+		ctx := c.committedCtx()
+		if c.app.EnterpriseKeeper.AddressIsWhitelisted(ctx, c.addrOf(5)) {
+			s.fail("C13", 0, "a governance proposal carrying "+tc.what+" signed by the gov module account (not an enterprise signer) changed the whitelist")
+		}
+		if po, _ := c.app.EnterpriseKeeper.GetPurchaseOrder(ctx, 1); len(po.Decisions) != 0 || po.Status != enttypes.StatusRaised {
+			for _, p := range []string{"C13", "C03"} {
+				s.fail(p, 0, fmt.Sprintf("a governance proposal carrying %s signed by the gov module account (not an enterprise signer) was recorded on purchase order 1: %s", tc.what, po.String()))
+			}
+		}
+	}
+	return s.failures
+}
+
+// C12 (round 10): the stream sender is a MODULE account (the gov account paying a grant by proposal).  The cancel by
+// that sender succeeds and refunds the unreleased remainder.
+func scenGovAccountAsStreamSender() []monFailure {
+	s := &scen{c: newChain(fixedCfg()), name: "gov-account-as-stream-sender"}
+	defer s.c.close()
+	c := s.c
+	gov := authtypes.NewModuleAddress("gov")
+	s.blockStart(5 * time.Second)
+	// fund the gov account through the keeper (set-up; whether user transfers may reach it is not the subject here)
+	if err := c.app.BankKeeper.SendCoinsFromAccountToModule(c.ctx(), c.addrOf(0), "gov", nundCoins(100_000)); err != nil {
+		s.blockEnd()
+		return s.failures
+	}
+	s.blockEnd()
+	var pid uint64
+	create := &strtypes.MsgCreateStream{Sender: gov.String(), Receiver: c.addrOf(1).String(), Deposit: sdk.NewInt64Coin("nund", 90_000), FlowRate: 10}
+	s.govPass(&pid, create)
+	if _, ok := c.app.StreamKeeper.GetStream(c.committedCtx(), c.addrOf(1), gov); !ok {
+		return s.failures // the proposal did not create the stream: nothing to observe
+	}
+	before := c.app.BankKeeper.GetBalance(c.committedCtx(), gov, "nund").Amount
+	prop, found := s.govPass(&pid, &strtypes.MsgCancelStream{Sender: gov.String(), Receiver: c.addrOf(1).String()})
+	ctx := c.committedCtx()
+	st, still := c.app.StreamKeeper.GetStream(ctx, c.addrOf(1), gov)
+	back := c.app.BankKeeper.GetBalance(ctx, gov, "nund").Amount.Sub(before)
+	if !found || prop.Status != govv1.StatusPassed || still {
+		s.fail("C12", 0, fmt.Sprintf("the cancel of a funded stream by its sender, the gov module account (by proposal), did not go through: proposal status %s, stream still present %v with deposit %s", prop.Status, still, st.Deposit))
+	} else if !back.IsPositive() {
+		s.fail("C12", 0, fmt.Sprintf("the cancel of a stream by its sender, the gov module account, refunded %snund (net of the proposal deposit)", back))
+	}
+	return s.failures
+}
+
+// C06 (round 10): a fee parameter at 2^63 (legal: Validate only asks for a positive value).  CheckTx admits a
+// registration only at exactly that fee: offers of 1 nund or of the previous fee are refused.
+func scenFeeParameterAt63Bits() []monFailure {
+	s := &scen{c: newChain(fixedCfg()), name: "fee-parameter-at-2^63"}
+	defer s.c.close()
+	c := s.c
+	gov := authtypes.NewModuleAddress("gov").String()
+	s.blockStart(5 * time.Second)
+	s.blockEnd()
+	wNew := wrktypes.NewParams(1<<63, 10, 5, "nund", 2, 5)
+	bNew := bcntypes.NewParams(1<<63, 10, 5, "nund", 2, 5)
+	var pid uint64
+	prop, found := s.govPass(&pid, &wrktypes.MsgUpdateParams{Authority: gov, Params: wNew}, &bcntypes.MsgUpdateParams{Authority: gov, Params: bNew})
+	if !found || prop.Status != govv1.StatusPassed {
+		return s.failures
+	}
+	for _, wrk := range []bool{true, false} {
+		for _, fee := range []int64{1, 1000, 1 << 62} {
+			ts := txSpec{msgs: []sdk.Msg{c.mRegRegister(wrk, 3, "m", "n", "g", "t").m}, fee: nundCoins(fee), signers: []acct{c.accts[3]}}
+			if r, _ := c.check(ts); r.Code == 0 {
+				for _, p := range []string{"C06", "C16"} {
+					s.fail(p, 0, fmt.Sprintf("with the registration fee set to 2^63 nund by governance, CheckTx admits a registration (wrkchain=%v) offering %dnund", wrk, fee))
+				}
+			}
 		}
 	}
 	return s.failures
